@@ -141,6 +141,13 @@ class E2E:
                     if i + 1 < len(vs):
                         list(fx_target.gen(v, vs[i + 1]))
                     fx_target.C().m(v)
+                # functions that change the dict they were given in place and hand the same object back: what they return
+                # is an empty / integer-keyed dict, whatever it was when the call started
+                handed_back = {"emptied": [], "rekeyed": [], "gen_emptied": []}
+                for s_ in specs:
+                    handed_back["emptied"].append(fx_target.emptied(vals.build(s_)))
+                    handed_back["rekeyed"].append(fx_target.rekeyed(vals.build(s_)))
+                    handed_back["gen_emptied"] += list(fx_target.gen_emptied(vals.build(s_)))
             # raw rows
             con = sqlite3.connect(db)
             raw = con.execute("select arg_types, return_type, yield_type from monkeytype_call_traces").fetchall()
@@ -159,6 +166,15 @@ class E2E:
                         tv.append((T, []))
             ctx.label("e2e-decoded-types", *[] )
             check_types(ctx, spec, tv, k, "store")
+            for fname, vs_back in handed_back.items():
+                outs = [(t.yield_type if fname == "gen_emptied" else t.return_type) for t in traces if t.func.__name__ == fname]
+                for v in vs_back:
+                    if type(v) is dict and outs and not any(T is not None and member_td_nonempty(v, T) for T in outs):
+                        ctx.label("handed-back-dict-checked")
+                        through_td = any(T is not None and _member(v, T, False) for T in outs)
+                        return ctx.fail("C06/store:empty-or-nonstr-dict-as-typeddict" if through_td else "C06/store:handed-back-value-not-admitted-by-any-trace", spec,
+                                        f"{fname}() handed back {v!r}; no stored trace of it has a {'yield' if fname == 'gen_emptied' else 'return'} type that admits this value "
+                                        f"other than through a TypedDict: {[show(T) for T in outs if T is not None][:4]}")
             out, err = io.StringIO(), io.StringIO()
             try:
                 rc = cli.main(["-c", "fx_cfg:CONFIG", "stub", "fx_target"], out, err)
